@@ -221,7 +221,12 @@ def run(res):
                         break
     res.assumptions += ["h5py reports rf_data, rf_data_index and attributes faithfully",
                         "multi-session sequence numbers are covered by C11"]
-    res.trusted += ["Model/WriterCore.v + Model/IndexCalc.v are hand models, tied by this correspondence"]
+    res.trusted += [T3_TRUST, "Model/WriterCore.v + Model/IndexCalc.v are hand models, tied by this correspondence"]
+
+
+T3_TRUST = ("translate/attrs2gallina.py (T3): symbolic reading of the straight-line HDF5 attribute code of "
+            "digital_rf_write_metadata / digital_rf_handle_metadata from clang's JSON AST and of recreate_properties_file from "
+            "Python's ast; fail-closed; its output is also compared with the attributes of real files on every run")
 
 
 def replay(res, rp):
